@@ -2173,12 +2173,17 @@ class SQLCompiler(Compiled):
             escaped_name = ebn.get(name, name) if ebn else name
             parameter = self.binds[name]
 
+            # the given parameters are keyed by escaped names when they
+            # come from construct_params(escape_names=True), by the plain
+            # names otherwise
+            param_key = escaped_name if escaped_name in parameters else name
+
             if parameter in self.literal_execute_params:
                 if escaped_name not in replacement_expressions:
                     replacement_expressions[escaped_name] = (
                         self.render_literal_bindparam(
                             parameter,
-                            render_literal_value=parameters.pop(escaped_name),
+                            render_literal_value=parameters.pop(param_key),
                         )
                     )
                 continue
@@ -2199,7 +2204,7 @@ class SQLCompiler(Compiled):
                     # into the given dictionary.   default dialect will
                     # use these param names directly as they will not be
                     # in the escaped_bind_names dictionary.
-                    values = parameters.pop(name)
+                    values = parameters.pop(param_key)
 
                     leep_res = self._literal_execute_expanding_parameter(
                         escaped_name, parameter, values
